@@ -10,6 +10,7 @@ pull count equals (or, for documented look-ahead stages, does not exceed) the
 allowance.  Stages are then composed into chains whose allowances compose.
 """
 from collections import OrderedDict
+from fractions import Fraction
 import itertools, math, operator
 from ..runner import Kind, R, bad
 from ..sources import CountingSource, Overread
@@ -99,6 +100,14 @@ def catalogue():
   C["filter-odd"] = S(lambda s: Stream(s).filter(odd), lambda k: 2 * k, chain=False, valuedep=True)
   C["skip3"] = S(lambda s: Stream(s).skip(3), lambda k: k + 3)
   C["skip0"] = S(lambda s: Stream(s).skip(0), lambda k: k)
+  # the same with every number type a count may have
+  C["skip(3.0)"] = S(lambda s: Stream(s).skip(3.0), lambda k: k + 3)
+  C["skip(2.6)"] = S(lambda s: Stream(s).skip(2.6), lambda k: k + 3)
+  C["skip(Fraction)"] = S(lambda s: Stream(s).skip(Fraction(5, 2) + Fraction(1, 10)), lambda k: k + 3)
+  C["skip(True)"] = S(lambda s: Stream(s).skip(True), lambda k: k + 1)
+  C["skip(-1.5)"] = S(lambda s: Stream(s).skip(-1.5), lambda k: k)
+  C["limit(100.0)"] = S(lambda s: Stream(s).limit(100.0), lambda k: k, chain=False)
+  C["skip.skip"] = S(lambda s: Stream(s).skip(2).skip(1.0), lambda k: k + 3)
   C["limit5"] = S(lambda s: Stream(s).limit(5), lambda k: min(k, 5), chain=False, finite=5)
   C["islice(4)"] = S(lambda s: li.islice(s, 4), lambda k: min(k, 4), chain=False, finite=4)
   C["takewhile<3"] = S(lambda s: li.takewhile(lambda v: v < 3, s), lambda k: min(k, 3) + (1 if k > 3 else 0), chain=False, finite=3)
@@ -260,7 +269,7 @@ def gen_stages(run):
   # every stage once more over a long run: internal batching or buffering that only starts after
   # tens or hundreds of items would read ahead there
   for name in CAT:
-    yield (name, min(run.pick(300, 1200), {"limit100": 100, "stream*list": 59}.get(name, 10 ** 9)), "step")
+    yield (name, min(run.pick(300, 1200), {"limit100": 100, "limit(100.0)": 100, "stream*list": 59}.get(name, 10 ** 9)), "step")
 
 
 def needs(stage, k):
